@@ -146,6 +146,9 @@ def _mask_meaning(mask, depth=6):
     column numbers (of the table named by base text) that were tested."""
     if mask is None or depth <= 0:
         return None
+    if mask.nonzero_of is not None and mask.dtype != 'bool':
+        # positions where a mask holds: selecting by them is selecting by the mask
+        return _mask_meaning(mask.nonzero_of, depth - 1)
     if mask.inv_of is not None:
         m = _mask_meaning(mask.inv_of, depth - 1)
         if m is None:
